@@ -823,6 +823,15 @@ def check_name_extraction_shape(ctx):
                         if isinstance(x, ast.Name) and x.id not in derived:
                             derived.add(x.id)
                             changed = True
+    # "is it a name already?" is asked with isinstance: a dtype that is a *subclass* of str (np.str_, a `class DType(str, Enum)` member of a
+    # duck-typed array) is a name; an exact-type test sends it through repr() and no category entry equals `"<DType.float32: 'float32'>"`
+    for t_ in walk_scope(f.node):
+        if isinstance(t_, ast.Compare) and len(t_.ops) == 1 and isinstance(t_.ops[0], (ast.Is, ast.IsNot, ast.Eq, ast.NotEq)) and isinstance(t_.left, ast.Call) \
+                and isinstance(t_.left.func, ast.Name) and t_.left.func.id == "type" and len(t_.left.args) == 1 and isinstance(t_.left.args[0], ast.Name) \
+                and t_.left.args[0].id in (derived | {"dtype"}) and isinstance(t_.comparators[0], ast.Name) and t_.comparators[0].id == "str":
+            ctx.bad("C03.3", f, t_, f"`{norm(t_)}` asks whether the extracted dtype is a name by its exact type: a `str` subclass (np.str_, a str-Enum member) is treated as \"not a name\" and "
+                    "rendered with repr(), so an array carrying it is rejected by every category although the same name as a plain str (or carried by NumPy) is accepted",
+                    construct=f"exact-type test on the dtype name: {norm(t_)}")
     defs = [st for st in assigns if any(isinstance(x, ast.Name) and x.id == "dtype" for t in st.targets for x in ast.walk(t))]
     ctx.counters["dtype_name_definitions"] = len(defs)
     for st in defs:
